@@ -332,6 +332,19 @@ pub fn run(rep: &mut Report) {
             j_value(days[di], tod, ts, i % 16 == 0, out)
         });
     }
+    // interior scan (round 8): evenly spread, unremarkable (day, nanosecond of day) pairs over years 0001-9999 and, more thinly,
+    // over -30 000 .. 30 000, in every scale
+    {
+        let nsc: u64 = if q { 200_000 } else { 12_000_000 };
+        rep.bound("interior_scan_points", nsc);
+        let (d0, d1) = (days1900(1, 1, 1) as i128, days1900(9999, 12, 31) as i128);
+        let (f0, f1) = (days1900(-30_000, 1, 1) as i128, days1900(30_000, 12, 31) as i128);
+        sweep(rep, "c08.scan_value", 9 * nsc, |i, out| {
+            let k = i / 9;
+            let day = if k % 8 == 7 { crate::lattice::scan_point(k, 0, f0, f1) } else { crate::lattice::scan_point(k, 1, d0, d1) } as i64;
+            j_value(day, crate::lattice::scan_point(k, 2, 0, NS_DAY - 1), SCALES[(i % 9) as usize], i % 16 == 0, out)
+        });
+    }
     // far years: EVERY year of -30 000 ..= 30 000 (odd and even, every residue of the 4/100/400 rule) on 1 January,
     // 1 March and 31 December, at three times of day, in every scale
     let far_tod: [i128; 3] = [0, 43_200 * NS_S + 1, 86_399 * NS_S + 999_999_999];
